@@ -412,21 +412,30 @@ _PYWS = " \t\n\r\x0b\x0c"
 
 
 def _py_int(x=0, base=None):
-    """int() for the lifted parser: lbytes.l_int plus CPython's single underscores between digits"""
-    if isinstance(x, lbytes._LBase) and base is None:
-        s = x.s.strip(_PYWS)
-        if "_" in s:
-            body = s[1:] if s[:1] in ("+", "-") else s
+    """int(<bytes>) for the lifted parser, base 10: ASCII whitespace around, one sign, digits with
+    CPython's single underscores between digits.  Unlike lbytes.l_int the error message does not
+    format the (symbolic) argument, which would realise it (one path per value)."""
+    if not (isinstance(x, lbytes._LBase) and base is None):
+        return lbytes.l_int(x, base)
+    cs, _lead, _trail = _strip(list(x.s))
+    neg = False
+    if len(cs) > 0 and (cs[0] == "+" or cs[0] == "-"):
+        neg = cs[0] == "-"
+        cs = cs[1:]
+    if len(cs) == 0:
+        raise ValueError("invalid literal for int() with base 10")
+    v = 0
+    prev_digit = False
+    for i, ch in enumerate(cs):
+        o = ord(ch)
+        if 48 <= o <= 57:
+            v = v * 10 + (o - 48)
+            prev_digit = True
+        elif ch == "_" and prev_digit and i + 1 < len(cs) and 48 <= ord(cs[i + 1]) <= 57:
             prev_digit = False
-            for i, ch in enumerate(body):
-                if ch == "_":
-                    if not prev_digit or i + 1 >= len(body) or not (48 <= ord(body[i + 1]) <= 57):
-                        raise ValueError("invalid literal for int() with base 10")
-                    prev_digit = False
-                else:
-                    prev_digit = 48 <= ord(ch) <= 57
-            return lbytes.l_int(lbytes.LBytes(s.replace("_", "")))
-    return lbytes.l_int(x, base)
+        else:
+            raise ValueError("invalid literal for int() with base 10")
+    return -v if neg else v
 
 
 L = lift.lift("twisted.web.static", names=["File"],
@@ -831,92 +840,6 @@ HARNESSES = [
     H(multi_buf, shards=[("n3 == 0",), ("n3 == 1",)], timeout={"quick": 60, "thorough": 300}),
 ]
 
-# ---- known-finding families (only used while the finding is listed as open) -------------------------
-
-_BND = "%x%x" % (int(_FakeTime.time() * 1000000), _FakeOS.getpid())
-
-
-def _seplen(first, last, size):
-    return len("\r\n--%s\r\nContent-type: text/plain\r\nContent-range: bytes %d-%d/%d\r\n\r\n"
-               % (_BND, first, last, size))
-
-
-def _negread(size, specs, buf):
-    """does MultipleRangeStaticProducer ask the file for a negative number of bytes? (length-only
-    replay of its buffer accounting; used only to delimit the known finding)"""
-    parts = []
-    for s, e in specs:
-        r = _rfc(size, s, e)
-        if r is not None:
-            parts.append((_seplen(r[0], r[1], size), r[1] - r[0] + 1))
-    if not parts:
-        return False
-    parts.append((len("\r\n--%s--\r\n" % _BND), 0))
-    i = 0
-    written = 0
-    pending = True
-    for _ in range(1000):
-        dl = 0
-        while dl < buf:
-            if pending:
-                dl += parts[i][0]
-                pending = False
-            n = min(buf - dl, parts[i][1] - written)
-            if n < 0:
-                return True
-            written += n
-            dl += n
-            if written == parts[i][1]:
-                i += 1
-                if i == len(parts):
-                    return False
-                written = 0
-                pending = True
-    return False
-
-
-def _mb_specs(n1, n2, n3):
-    a = 95 + _pick(n1, list(range(0, B['n1'] + 1)))
-    c = _pick(n2 - 1, [1, 2, 3])
-    specs = [(0, a - 1), (300, 300 + c - 1)]
-    if _pick(n3, [0, 1]):
-        specs.append((None, 2))
-    return specs
-
-
-def _mb_negread(n1, n2, n3):
-    return _negread(400, _mb_specs(n1, n2, n3), 256)
-
-
-def _m_negread(sizei, i1, i2, bufi):
-    return _negread(_pick(sizei, _MSIZES), [_pick(i1, _MSPECS), _pick(i2, _MSPECS)], _pick(bufi, [256, 65536]))
-
-
-def _m_allunsat(sizei, i1, i2):
-    size = _pick(sizei, _MSIZES)
-    return _rfc(size, *_pick(i1, _MSPECS)) is None and _rfc(size, *_pick(i2, _MSPECS)) is None
-
-
-EXCLUDE = {
-    "c25-multirange-all-unsatisfiable-500": {"multi": "not _m_allunsat(sizei, i1, i2)"},
-    "c25-multirange-negative-read-hang": {"multi_buf": "not _mb_negread(n1, n2, n3)",
-                                          "multi": "not _m_negread(sizei, i1, i2, bufi)"},
-    "c25-empty-range-set": {"parse": "shape != 6"},
-}
-
-
-def classify(harness_name, args):
-    if harness_name == "multi" and _m_allunsat(args["sizei"], args["i1"], args["i2"]):
-        return "c25-multirange-all-unsatisfiable-500"
-    if harness_name == "multi" and _m_negread(args["sizei"], args["i1"], args["i2"], args["bufi"]):
-        return "c25-multirange-negative-read-hang"
-    if harness_name == "multi_buf" and _mb_negread(args["n1"], args["n2"], args["n3"]):
-        return "c25-multirange-negative-read-hang"
-    if harness_name == "parse" and args["shape"] == 6:
-        return "c25-empty-range-set"
-    return None
-
-
 VECTORS = {
     "parse": [(0, "5", "12", "", "", "", 0), (0, "12", "5", "", "", "", 0), (1, "7", "", "", "", " ", 6),
               (2, "", "3", "", "", "-", 6), (3, "1", "2", "3", "4", ",", 9), (3, "1", "2", "3", "4", " ", 10),
@@ -933,7 +856,8 @@ VECTORS = {
 
 def selftest():
     n = lbytes.selftest()
-    for raw in [b"1", b" 12 ", b"+5", b"-5", b"1_0", b"_1", b"1_", b"1__0", b"+_1", b"1_0_2", b"", b"+", b"\t7\x0b",
+    al = [b"0", b"9", b"_", b"+", b"-", b" ", b"\t", b"\x0b", b"a", b"\xa0", b"\x1c", b""]
+    for raw in [x + y + z + w for x in al for y in al for z in al for w in (b"", b"5")] + [b"1", b" 12 ", b"+5", b"-5", b"1_0", b"_1", b"1_", b"1__0", b"+_1", b"1_0_2", b"", b"+", b"\t7\x0b",
                 b"0x1", b"1 2", b"\xa05", b"12a", b"-_3", b"9_9\n", b"--1", b"0_0"]:
         try:
             want = int(raw)
